@@ -12,6 +12,7 @@ RULE = ("(a) memory_stream: sequences of 1-6 writes of objects/vectors/strings w
         "non-trivial = at least one multi-byte element / non-empty state; distinct by op text")
 ASSUMPTIONS = ["process death is simulated by _exit at interposed libc calls (rename, fopen, write/writev, fclose); data handed to write() "
                "before the death point is assumed to reach the disk, data after it not (no model of the OS page cache or of power loss)"]
+TIMEOUT = 180      # (a quick-tier run takes seconds; a load that never returns is a violation of the property, not something to wait for)
 TRUSTED_EXTRA = ["file-system model: rename is atomic and replaces its target; open(truncate) empties the file; a crash inside write() leaves a prefix"]
 
 CONF = inj_cv("a", 0, 0.0, 4.0, 0.5) + inj_cv("b", 1, -2.0, 2.0, 0.5) + """
